@@ -381,9 +381,15 @@ def special_args(env, fname, spec, dtype):
     if fname in ("store", "to_zarr"):
         x = xp.negative(A())
         tgt = env.new_target_store() if spec is env.spec_a or rng.random() < 0.5 else env.new_target_path()
+        # location targets (fresh path / store object, nothing there yet) x region x compute=False: the region is the
+        # explicit full extent (a lazily created target has the source's shape), i.e. "not None and not all slice(None)"
+        tgt2 = env.new_target_path() if rng.random() < 0.6 else env.new_target_store()
+        region = tuple(slice(0, n) for n in x.shape)
         if fname == "store":
-            return [("store[compute=False]", [[x], [tgt]], {"compute": False}), ("store", [x, tgt], {})]
-        return [("to_zarr[compute=False]", [x, tgt], {"compute": False, "path": rng.choice([None, "g/a"])}), ("to_zarr", [x, tgt], {})]
+            return [("store[compute=False]", [[x], [tgt]], {"compute": False}), ("store", [x, tgt], {}),
+                    ("store[compute=False,regions]", [[x], [tgt2]], {"compute": False, "regions": rng.choice([region, [region]])})]
+        return [("to_zarr[compute=False]", [x, tgt], {"compute": False, "path": rng.choice([None, "g/a"])}), ("to_zarr", [x, tgt], {}),
+                ("to_zarr[compute=False,region]", [x, tgt2], {"compute": False, "region": region, "path": rng.choice([None, "x", "sub/x"])})]
     if fname == "compute":
         return [("compute", [xp.negative(A()), xp.add(A((3,)), 1)], {})]
     if fname == "plan":
@@ -1304,6 +1310,7 @@ def fixed_corpus(env, ctx):
         z.plan()
         return z
 
+    region_store_corpus(env, ctx)
     for spec in (env.spec_b, env.spec_a, None):
         for kind in ("clip(x, asarray(3), asarray(8))", "clip(x, min(x)+2, max(x)-2)", "clip(x, 3, asarray(8))"):
             case = {"corpus": "negative(%s).plan()" % kind, "x": "asarray(arange(12).reshape(3,4), chunks=(2,2))", "spec": env.spec_name(spec)}
@@ -1312,3 +1319,55 @@ def fixed_corpus(env, ctx):
             judge(env, ctx, "corpus: " + kind, case, o, expect_exec=False, record=False)
             if o["outcome"] == "ok":
                 follow_up(env, ctx, "corpus: " + kind, case, o["result"], [0])
+
+
+def region_store_corpus(env, ctx):
+    """Must-hold cases 4-6 (seeded change C16-2: `_store_array` opened a *location* target eagerly with mode="a" when a
+    non-trivial region was given): a lazy region store into a location where nothing exists yet, then plan() and
+    visualize(); neither the target location nor work_dir / the intermediate store may contain anything before compute.
+    (Whether such a store later succeeds at compute is not C16's business.)"""
+    import numpy as np
+
+    import cubed
+    import cubed.array_api as xp
+
+    full = (slice(0, 4), slice(0, 4))
+    scenarios = [
+        ("to_zarr(b, <fresh location>, region=(slice(0,4),slice(0,4)), compute=False)",
+         lambda b, tgt: cubed.to_zarr(b, tgt, region=full, compute=False)),
+        ("store([b], [<fresh location>], regions=(slice(0,4),slice(0,4)), compute=False)",
+         lambda b, tgt: cubed.store([b], [tgt], regions=full, compute=False)[0]),
+        ("store([b], [<fresh location>], regions=[(slice(0,4),slice(0,4))], compute=False)",
+         lambda b, tgt: cubed.store([b], [tgt], regions=[full], compute=False)[0]),
+        ("to_zarr(b[:2,:], <fresh location>, path='sub/x', region=(slice(0,2),slice(0,4)), compute=False)",
+         lambda b, tgt: cubed.to_zarr(b[:2, :], tgt, path="sub/x", region=(slice(0, 2), slice(0, 4)), compute=False)),
+    ]
+    for spec in (env.spec_b, env.spec_a, None):
+        for what, build in scenarios:
+            for target_kind in ("path", "store"):
+                a = xp.asarray(np.arange(16, dtype=np.int64).reshape(4, 4), chunks=(2, 2), spec=spec)
+                b = xp.add(a, 1)
+                tgt = env.new_target_path() if target_kind == "path" else env.new_target_store()
+                case = {"corpus": what, "a": "asarray(arange(16).reshape(4,4), chunks=(2,2))", "b": "add(a, 1)",
+                        "target": "fresh directory path (does not exist)" if target_kind == "path" else "fresh empty zarr store object",
+                        "spec": env.spec_name(spec)}
+                o = observe(env, lambda build=build, b=b, tgt=tgt: build(b, tgt))
+                ctx.count(case, nontrivial=o["outcome"] == "ok", kind="corpus-region:" + o["outcome"].split(":")[0])
+                judge(env, ctx, "corpus: lazy region store", case, o, expect_exec=False, record=False)
+                if o["outcome"] != "ok":
+                    continue
+                lazy = o["result"]
+                for then, thunk in (("plan()", lambda: lazy.plan()),
+                                    ("plan(optimize_graph=False)", lambda: lazy.plan(optimize_graph=False)),
+                                    ("visualize(format='raw')", lambda: lazy.visualize(
+                                        filename=os.path.join(env.viz_dir, "c%d" % env.rng.randrange(10 ** 9)), format="raw"))):
+                    o2 = observe(env, thunk)
+                    ctx.count(dict(case, then=then), nontrivial=o2["outcome"] == "ok", kind="corpus-region:" + then.split("(")[0])
+                    judge(env, ctx, "corpus: lazy region store, then " + then, dict(case, then=then), o2, expect_exec=False, record=False)
+                # independent of the event log: the location itself must still be empty / absent
+                if target_kind == "path" and os.path.exists(tgt) and env.T.fs_snapshot(tgt):
+                    ctx.fail("corpus: lazy region store left files in the target location before any execution: %s"
+                             % sorted(env.T.fs_snapshot(tgt))[:4], case, key=None)
+                if target_kind == "store" and tgt.raw_keys():
+                    ctx.fail("corpus: lazy region store left keys in the target store before any execution: %s"
+                             % sorted(tgt.raw_keys())[:4], case, key=None)
